@@ -169,7 +169,12 @@ def check_minter(workdir, nres, chunk=20, limit=40, timeout=600):
     os.makedirs(wd, exist_ok=True)
     for f in ("DecArith.tla", "MinterMath.tla"):
         shutil.copy(os.path.join(SPEC, f), os.path.join(wd, f))
-    samples = (nres.get("samples") or [])[:limit]
+    allsamples = nres.get("samples") or []
+    # a third of the budget goes to samples taken inside a period of centuries (beyond what a time.Duration holds), the rest in recorded order
+    def in_long_period(x):
+        return any(p["end_ms"] >= 0 and p["end_ms"] - p["start_ms"] > 9 * 10 ** 12 and p["start_ms"] < x["t_ms"] for p in x["periods"])
+    longs = [x for x in allsamples if in_long_period(x)][:max(1, limit // 3)]
+    samples = longs + [x for x in allsamples if x not in longs][:limit - len(longs)]
     rels = []
     for s in samples:
         for r in _minter_relations(s):
